@@ -41,6 +41,66 @@ def unhex(h):
     return b'' if h == '-' else bytes.fromhex(h)
 
 
+# ---- part A: the property text as an executable judge ---------------------------------------------
+# "simplifyPath is idempotent and lexically equivalent to its input": a path text is walked over an abstract
+# tree - '.' stays, a name goes down, '..' takes back the last name and, when there is none, escapes one
+# level above the starting point.  What a text denotes lexically is (absolute?, levels escaped, names left);
+# two texts are equivalent when these agree.  "getRelativePath(from, to) appended to from denotes to": the
+# text from + '/' + answer denotes what `to` denotes, whenever some text can do that (same kind, and `from`
+# does not escape further than `to`: to come back down below a '..' one would need a name no lexical function has).
+# Independent of the Coq Spec (PathSpec.canon, which in addition fixes the spelling of the result).
+
+def lex_of(p):
+    names, ups = [], 0
+    for c in p.replace(b'\\', b'/').split(b'/'):
+        if c == b'' or c == b'.':
+            continue
+        if c == b'..':
+            if names:
+                names.pop()
+            else:
+                ups += 1
+        else:
+            names.append(c)
+    return (p[:1] in (b'/', b'\\'), ups, tuple(names))
+
+
+def lex_show(d):
+    return '%s, %d above, %s' % ('absolute' if d[0] else 'relative', d[1], b'/'.join(d[2]).decode('latin-1') or '-')
+
+
+def path_text_judge(ops, obs):
+    """-> None, or (line index, rule, message) for the first simp / rel line the text does not allow"""
+    for k, line in enumerate(ops):
+        if k >= len(obs) or obs[k].startswith('!') or obs[k].startswith('?'):
+            return None
+        t, res = line.split(' '), obs[k].split(' | ')[0].split(' ')
+        if t[0] == 'simp' and len(res) == 2:
+            p, s1, s2 = unhex(t[1]), unhex(res[0]), unhex(res[1])
+            if lex_of(s1) != lex_of(p):
+                return (k, 'not-equivalent', 'simplifyPath(`%s`) = `%s` denotes (%s), the input denotes (%s)' % (
+                    p.decode('latin-1'), s1.decode('latin-1'), lex_show(lex_of(s1)), lex_show(lex_of(p))))
+            if s1 != s2:
+                return (k, 'not-idempotent', 'simplifyPath(`%s`) = `%s`, simplified again `%s`' % (p.decode('latin-1'), s1.decode('latin-1'), s2.decode('latin-1')))
+        elif t[0] == 'rel' and len(res) == 2:
+            f, to, r = unhex(t[1]), unhex(t[2]), unhex(res[0])
+            lf, lt = lex_of(f), lex_of(to)
+            if lf[0] == lt[0] and lf[1] == 0:
+                j = lex_of((f + b'/' + r) if f else r)
+                if j != lt:
+                    return (k, 'does-not-denote-to', 'getRelativePath(`%s`, `%s`) = `%s`: appended to from it denotes (%s), to denotes (%s)' % (
+                        f.decode('latin-1'), to.decode('latin-1'), r.decode('latin-1'), lex_show(j), lex_show(lt)))
+    return None
+
+
+def dot_paths(maxc, alpha=(b'a', b'b', b'..', b'.')):
+    out = [b'']
+    for n in range(1, maxc + 1):
+        for tpl in itertools.product(alpha, repeat=n):
+            out.append(b'/'.join(tpl))
+    return out
+
+
 # ---- part B: file-system cases ------------------------------------------------------------------
 # A case starts with '@fs' (the harness builds fs-<pid>/g1/g2/g3/{in,out} and works in `in`).
 # Paths are relative, use '/' only, have at most one leading '..' (always followed by `out`) and
@@ -51,7 +111,7 @@ def H(s):
 
 
 LINK_TARGETS = ['../out', '../out/s', '../out/k', 'a', 'a/b', 'f', '.', 'nowhere', 'l2', 'l', 'a/g', '../in/a']
-NAMES = ['a', 'b', 'c', 'f', 'g', 'l', 'l2', 'm']
+NAMES = ['a', 'b', 'c', 'f', 'g', 'l', 'l2', 'm', '.d', '.h']
 CONTENTS = [b'', b'x', b'hello', b'0123456789', b'\x00\xff\x00', b'abcdefghijklmnopqrstuvwxyz' * 3]
 
 
@@ -65,14 +125,14 @@ def rand_tree(rng, links=True):
     lines, dirs, files, lnks = [], [], [], []
     for _ in range(rng.randrange(0, 4)):
         parent = rng.choice([''] + dirs)
-        nm = rng.choice(['a', 'b', 'c', 'g'])
+        nm = rng.choice(['a', 'b', 'c', 'g', '.d', 'a', 'b', '.d'])
         p = (parent + '/' if parent else '') + nm
         if p not in dirs and p not in files and p.count('/') < 3:
             dirs.append(p)
             lines.append('mkd ' + H(p))
     for _ in range(rng.randrange(0, 4)):
         parent = rng.choice([''] + dirs)
-        nm = rng.choice(['f', 'g', 'm', 'b'])
+        nm = rng.choice(['f', 'g', 'm', 'b', '.h', '..x', 'f', '.h'])
         p = (parent + '/' if parent else '') + nm
         if p not in dirs and p not in files:
             files.append(p)
@@ -80,7 +140,7 @@ def rand_tree(rng, links=True):
     if links:
         for _ in range(rng.randrange(0, 4)):
             parent = rng.choice(['', ''] + dirs)
-            nm = rng.choice(['l', 'l2', 'c'])
+            nm = rng.choice(['l', 'l2', 'c', '.l'])
             p = (parent + '/' if parent else '') + nm
             if p not in dirs and p not in files and p not in lnks:
                 lnks.append(p)
@@ -287,6 +347,40 @@ def fs_big_cases(rng, n, thorough):
     return cases
 
 
+# offsets around 2^31 and 2^32 (and one far beyond): a file that is extended by seeking behind its end costs no content
+BIG_OFFS = [(1 << 31) - 1, 1 << 31, (1 << 31) + 1, (1 << 32) - 1, 1 << 32, (1 << 32) + 5, (1 << 33) + 7, (1 << 40) + 3]
+
+
+def fs_sparse_cases(rng, n):
+    """seek / write / size / read with 64-bit offsets on sparse files.  First line '@fs sparse': the extracted model
+    (Peano positions, contents as lists) is not asked - model and spec lines are wildcards - and the case is judged by
+    fs_text_judge alone, which keeps such a content as size + non-zero bytes."""
+    cases = []
+    for i in range(n):
+        off = BIG_OFFS[i % len(BIG_OFFS)]
+        w1 = rng.choice([b'Z', b'QQ', b'hello', bytes(1 + rng.randrange(255) for _ in range(7))])
+        w2 = rng.choice([b'y', b'tail', b'\x01\x00\x02'])
+        c = ['@fs sparse', 'open 0 %s 3' % H('n')]
+        k = (i // len(BIG_OFFS)) % 3
+        if k == 0:
+            c += ['write 0 ' + H(b'head'), 'seek 0 %d 0' % off, 'write 0 ' + H(w1), 'size 0', 'seek 0 -1 2', 'read 0 4', 'seek 0 0 1',
+                  'seek 0 -%d 1' % (len(w1) + 2), 'read 0 3', 'seek 0 2 0', 'read 0 4', 'seek 0 %d 0' % (off - 2), 'read 0 100', 'close 0',
+                  'open 0 %s 14' % H('n'), 'write 0 ' + H(w2), 'size 0', 'close 0',
+                  'open 0 %s 1' % H('n'), 'seek 0 -%d 2' % (len(w2) + 1), 'read 0 9', 'size 0', 'close 0']
+        elif k == 1:
+            half = off // 2
+            c += ['seek 0 %d 0' % half, 'seek 0 %d 1' % (off - half), 'write 0 ' + H(w1), 'seek 0 -%d 1' % off, 'read 0 3', 'size 0',
+                  'seek 0 5 2', 'write 0 ' + H(w2), 'size 0', 'seek 0 %d 0' % (off + len(w1) - 1), 'read 0 %d' % (7 + len(w2)),
+                  'seek 0 -%d 2' % (off + 1), 'read 0 2', 'seek 0 -%d 1' % (1 << 41), 'seek 0 0 1', 'close 0']
+        else:
+            c += ['write 0 ' + H(w2), 'seek 0 %d 2' % off, 'write 0 ' + H(w1), 'flush 0', 'size 0', 'close 0',
+                  'rename %s %s %d' % (H('n'), H('../out/s/m'), rng.randrange(2)), 'open 1 %s 3' % H('../out/s/m'),
+                  'seek 1 %d 0' % (off + len(w2) - 1), 'read 1 %d' % (len(w1) + 2), 'seek 1 %d 0' % (off + off // 3), 'write 1 ' + H(b'E'),
+                  'size 1', 'seek 1 -2 2', 'read 1 5', 'close 1', 'funlink ' + H('../out/s/m')]
+        cases.append(c)
+    return cases
+
+
 ABS = '/g1/g2/g3/in/'
 
 
@@ -477,13 +571,13 @@ def chain(rng):
     names, paths, kinds = [], [], {}
     cur = ''
     for _ in range(depth):
-        cur = (cur + '/' if cur else '') + rng.choice(['a', 'b', 'c'])
+        cur = (cur + '/' if cur else '') + rng.choice(['a', 'b', 'c', 'a', 'b', '.d'])
         names.append(cur)
         kinds[cur] = ('d',)
     for d in list(names) + ['']:
         for _ in range(rng.randrange(0, 3)):
             if rng.random() < 0.45:
-                q = (d + '/' if d else '') + rng.choice(['f', 'g', 'x', 'l', 'k', 'e'])
+                q = (d + '/' if d else '') + rng.choice(['f', 'g', 'x', 'l', 'k', 'e', '.h', '.g', '..x'])
                 if q not in kinds:
                     kinds[q] = rng.choice([('f', rng.choice(CONTENTS)), ('f', b'q'), ('l', rng.choice(['../out/s', '../out', 'f', '.', 'nowhere'])), ('d',), ('d',)])
     # something below a sibling directory now and then
@@ -535,6 +629,9 @@ FAULT_TREES = [
      'mkl %s %s' % (H('../../out/s'), H('a/l'))],
     ['mkd ' + H('a'), 'mkd ' + H('a/b'), 'mkd ' + H('a/b/c'), 'mkf %s %s' % (H('a/b/c/f'), H(b'1')), 'mkf %s %s' % (H('a/b/g'), H(b'2')),
      'mkf %s %s' % (H('a/z'), H(b'3'))],
+    # names that start with a dot: a hidden directory holding a file, a hidden file, a hidden link, `..x` (entries in byte order)
+    ['mkd ' + H('a'), 'mkf %s %s' % (H('a/..x'), H(b'3')), 'mkd ' + H('a/.git'), 'mkf %s %s' % (H('a/.git/config'), H(b'1')),
+     'mkf %s %s' % (H('a/.hidden'), H(b'2')), 'mkl %s %s' % (H('../../out/s'), H('a/.l')), 'mkf %s %s' % (H('a/src'), H(b'4'))],
 ]
 
 
@@ -547,7 +644,7 @@ def fs_fault_cases(rng, n):
             for rec in (1, 0) if k < 2 else (1,):
                 cases.append(['@fs'] + sentinel() + tree + ['fault %d' % k, 'dunlink %s %d' % (H('a'), rec), 'dunlink %s 1' % H('a')])
     for tree in FAULT_TREES[1:]:
-        deep = 'a/b' if len(tree) > 2 else 'a'
+        deep = 'a/.git' if any('.git' in unhex(l.split()[1]).decode() for l in tree) else ('a/b' if len(tree) > 2 else 'a')
         for k in range(0, 14):
             cases.append(['@fs'] + sentinel() + tree + ['fault %d' % k, 'purge %s 1' % H(deep), 'exists ' + H('a')])
     for i in range(n):
@@ -567,6 +664,9 @@ FIXED_TREES = [
     ['mkd ' + H('a'), 'mkf %s %s' % (H('a/f'), H(b'hello')), 'mkf %s %s' % (H('b'), H(b'bb')), 'mkl %s %s' % (H('../out'), H('l'))],
     ['mkd ' + H('a'), 'mkd ' + H('a/b'), 'mkl %s %s' % (H('../../out/s'), H('a/l')), 'mkl %s %s' % (H('a'), H('l')), 'mkf %s %s' % (H('a/b/f'), H(b'x'))],
     ['mkd ' + H('a'), 'mkl %s %s' % (H('nowhere'), H('l')), 'mkl %s %s' % (H('b'), H('b')), 'mkf %s %s' % (H('f'), H(b'data'))],
+    # names that start with a dot below the directory that is removed / copied from / renamed
+    ['mkd ' + H('a'), 'mkd ' + H('a/.git'), 'mkf %s %s' % (H('a/.git/config'), H(b'cfg')), 'mkf %s %s' % (H('a/.hidden'), H(b'h')),
+     'mkf %s %s' % (H('a/..x'), H(b'x')), 'mkl %s %s' % (H('../../out/s'), H('a/.l')), 'mkd ' + H('b'), 'mkd ' + H('b/.d'), 'mkl %s %s' % (H('a/.git'), H('l'))],
 ]
 
 
@@ -629,7 +729,48 @@ def pat_bytes(seed, n):
     return bytes(((seed * 17 + i * 131 + (i >> 8) * 7 + (i >> 16) * 3) & 255) for i in range(n))
 
 
+SPARSE_LIMIT = 1 << 26
+
+
+class Sparse:
+    """the bytes of a file that was extended by seeking far behind its end: a size and the non-zero bytes"""
+    def __init__(self, size, data):
+        self.size, self.data = size, data
+
+    def __len__(self):
+        return self.size
+
+    def render(self):
+        rec = b''.join(o.to_bytes(8, 'little') + bytes([v]) for o, v in sorted(self.data.items()) if v)
+        return '##%d.%08x' % (self.size, zlib.crc32(rec) & 0xffffffff)
+
+
+def bread(data, pos, n):
+    """the bytes [pos, pos+n) of a content"""
+    if isinstance(data, Sparse):
+        return bytes(data.data.get(i, 0) for i in range(pos, min(pos + n, data.size)))
+    return data[pos:pos + n]
+
+
+def bwrite(data, pos, d):
+    """the content after writing d at pos (a hole reads as zeros)"""
+    end = max(len(data), pos + len(d))
+    if end <= SPARSE_LIMIT and not isinstance(data, Sparse):
+        return data[:pos] + b'\0' * max(0, pos - len(data)) + d + data[pos + len(d):]
+    if not isinstance(data, Sparse):
+        data = Sparse(len(data), {i: v for i, v in enumerate(data) if v})
+    nd = dict(data.data)
+    for i, v in enumerate(d):
+        if v:
+            nd[pos + i] = v
+        else:
+            nd.pop(pos + i, None)
+    return Sparse(end, nd)
+
+
 def render(b):
+    if isinstance(b, Sparse):
+        return b.render()
     if len(b) == 0:
         return '-'
     if len(b) <= 128:
@@ -817,8 +958,7 @@ def fs_text_judge(ops, obs):
                             if res[0] != '1':
                                 raise Bad('write-result', 'write on a handle opened for writing says false')
                             if d:
-                                nd = data[:pos] + b'\0' * max(0, pos - len(data)) + d + data[pos + len(d):]
-                                exp[T] = ('f', nd)
+                                exp[T] = ('f', bwrite(data, pos, d))
                                 hh['pos'] = pos + len(d)
                         elif res[0] != '0':
                             raise Bad('write-result', 'write on a handle not opened for writing says true')
@@ -834,6 +974,8 @@ def fs_text_judge(ops, obs):
                         if res[0] != str(len(data)):
                             raise Bad('size-result', 'size answers %s, the file holds %d bytes' % (res[0], len(data)))
                     elif op == 'readall':
+                        if isinstance(data, Sparse):
+                            return None                  # not generated: readAll sizes its buffer by the file
                         if hh['rd']:
                             want = data[pos:]
                             if res != ['1', render(want)]:
@@ -843,7 +985,7 @@ def fs_text_judge(ops, obs):
                             raise Bad('readall-result', 'readAll on a handle not opened for reading says true')
                     elif op == 'read':
                         if hh['rd']:
-                            want = data[pos:pos + int(t[2])]
+                            want = bread(data, pos, int(t[2]))
                             if res[0] != render(want):
                                 raise Bad('read-bytes', 'read gives `%s`, the file holds `%s` at the cursor' % (res[0], render(want)))
                             hh['pos'] = pos + len(want)
@@ -1150,6 +1292,25 @@ class C19(Check):
 
     FS_SETUP = ('mkd', 'mkf', 'mkl', 'mkfbig', 'inject', 'fault')
 
+    # cases '@fs sparse' (64-bit offsets): the extracted model is not asked; its lines and the spec's are wildcards
+    @staticmethod
+    def _wild(case):
+        return ['? ?' if l.split(' ')[0] in ('readall', 'create', 'dunlink', 'purge') else '?' for l in case[1:]]
+
+    def _split_run(self, cases, runner):
+        idx = [i for i, c in enumerate(cases) if not (c and c[0] == '@fs sparse')]
+        res = [None] * len(cases)
+        if idx:
+            for i, o in zip(idx, runner([cases[i] for i in idx])):
+                res[i] = o
+        return [self._wild(c) if r is None else r for c, r in zip(cases, res)]
+
+    def run_model(self, cases, tag='model'):
+        return self._split_run(cases, lambda cs: Check.run_model(self, cs, tag))
+
+    def run_spec(self, cases, tag='spec'):
+        return self._split_run(cases, lambda cs: Check.run_spec(self, cs, tag))
+
     def nontrivial(self, case, obs):
         if case and case[0].startswith('@fs'):
             # a file-system case counts when a library operation ran and its answer was observed
@@ -1186,7 +1347,16 @@ class C19(Check):
                     cls = ('fs-text/%s/%s' % (opn, rule)).replace('0', 'o').ljust(80)
                     fails.append((i, k, cls + ' ' + msg))
                     text_failed.add(i)
+            elif c and not c[0].startswith('@'):
+                r = path_text_judge(c, impl_obs[i])
+                if r:
+                    k, rule, msg = r
+                    cls = ('path-text/%s/%s' % (c[k].split(' ')[0], rule)).ljust(80)
+                    fails.append((i, k, cls + ' ' + msg))
+                    text_failed.add(i)
         for i, (s, o) in enumerate(zip(spec_obs, impl_obs)):
+            if i in text_failed:
+                continue
             if cases[i] and cases[i][0].startswith('@fs'):
                 s, o = under_faults(s, o)
             k = first_diff(s, o)
@@ -1260,6 +1430,18 @@ class C19(Check):
             cases.append(['parts ' + hexs(p), 'simp ' + hexs(p), 'abs ' + hexs(p), 'basex %s %s' % (hexs(p), hexs(e)),
                           'rel %s %s' % (hexs(p), hexs(q)), 'rel %s %s' % (hexs(q), hexs(p))])
         out.append(Stream('paths-random', cases))
+        # A5: every path of up to 6 components over {a b .. .}, relative and absolute (runs of '..' after names, '..' uncovered
+        # by 'name/..', three and more '..' in a row), some with doubled and backslash separators; pairs of the shorter ones
+        cases = []
+        for j, q in enumerate(dot_paths(7 if thorough else 6)):
+            c = ['simp ' + hexs(q), 'simp ' + hexs(b'/' + q)]
+            if j % 7 == 0:
+                c.append('simp ' + hexs(q.replace(b'/', rng.choice([b'//', b'\\', b'/./'])) + rng.choice([b'', b'/', b'\\'])))
+            cases.append(c)
+        out.append(Stream('paths-dots', cases, exhaustive=True, note='all paths of <= %d components over {a b .. .}, relative and absolute' % (7 if thorough else 6)))
+        S5 = dot_paths(4 if thorough else 3, (b'a', b'b', b'..'))
+        cases = [['rel %s %s' % (hexs(pre + f), hexs(pre + t)) for t in S5] for f in S5 for pre in (b'', b'/')]
+        out.append(Stream('relative-dots', cases, exhaustive=True, note='getRelativePath on all pairs of paths of <= %d components over {a b ..}, both relative / both absolute' % (4 if thorough else 3)))
         # B: the real File / Directory code on scratch trees against the file-system model
         out.append(Stream('fs-files', fs_files_cases(rng, 1500 if thorough else 250),
                           note='open with every flag mapping, write/seek/read/readAll/size histories, re-read, copy, rename'))
@@ -1269,8 +1451,9 @@ class C19(Check):
                           note='rename / copy / open aimed at their failure branches'))
         out.append(Stream('fs-transfer', fs_transfer_cases(rng, 1500 if thorough else 250, True),
                           note='File::copy with short, empty and failing sendfile calls (outcome oracle), sources up to 128 KiB'))
-        out.append(Stream('fs-big', fs_big_cases(rng, 48 if thorough else 12, thorough),
-                          note='contents of 64 KiB .. %s through readAll / read / write / append / copy / rename' % ('1 MiB' if thorough else '200 KB')))
+        out.append(Stream('fs-big', fs_big_cases(rng, 48 if thorough else 12, thorough) + fs_sparse_cases(rng, 96 if thorough else 24),
+                          note='contents of 64 KiB .. %s through readAll / read / write / append / copy / rename; offsets around 2^31, 2^32 and 2^40 '
+                               'through seek / write / size / read on sparse files (text judge only)' % ('1 MiB' if thorough else '200 KB')))
         out.append(Stream('fs-enum', fs_enum_cases(rng, 1500 if thorough else 250),
                           note='Directory::open / read / close: patterns, dirsOnly, links to directories / files / nothing, the object protocol'))
         out.append(Stream('fs-misc', fs_misc_cases(rng, 1500 if thorough else 250),
